@@ -180,6 +180,8 @@ class DeterministicOde(BaseOdeModel):
         Take sympy_obj_generator_func
         '''
         # Make the sympy object
+        # the symbols compiled against follow the current state and parameter lists
+        self.set_sp()
         sympy_obj=sympy_obj_generator_func()
 
         # Compile the sympy object
